@@ -1207,3 +1207,24 @@ def m_utf8_error(I, fr, callee, m, args):
     if op == 'into_bytes':
         return VecV(e.f[0].items, False)
     return SliceRef(I.new_ref(VecV(e.f[0].items), 'fu8'), usize(0), usize(len(e.f[0].items)))
+
+
+@model(r'^(?:(?:core|std|alloc)::)?str::<impl str>::(find|contains|starts_with|ends_with)::<char>$')
+def m_str_find_char(I, fr, callee, m, args):
+    """str::find / contains / starts_with / ends_with with an ASCII char pattern (an ASCII byte never occurs inside a
+    multi-byte sequence, so the search is byte-wise)"""
+    op = m.group(1)
+    s = as_slice(I, args[0])
+    c = args[1]
+    if not (c.concrete and c.e < 0x80):
+        raise Unsupported("str::%s with a non-ASCII / symbolic char pattern" % op)
+    xs = I.seq_list(s)
+    pat = mk('u8', c.e)
+    if op == 'starts_with':
+        return sc_from(z3.BoolVal(False), 'bool') if not xs else I.binop('Eq', xs[0], pat)
+    if op == 'ends_with':
+        return sc_from(z3.BoolVal(False), 'bool') if not xs else I.binop('Eq', xs[-1], pat)
+    for j, x in enumerate(xs):
+        if I.ctx.branch(I.binop('Eq', x, pat)):
+            return Some(usize(j)) if op == 'find' else TRUE
+    return NONE if op == 'find' else FALSE
